@@ -215,7 +215,12 @@ CHECKS = {
          "objects (complexes with exactly the denoted sequence/structure and the minimal rotation as canonical form, members "
          "are the identical registered singletons), the keys of every dictionary are exactly the declared names and `other` "
          "is the list of the remaining lines; consistency is a computation evaluated to True on every generated system. "
-         "Partial: sessions that already hold objects and `ignore` are not in the assembled statement; the sorted view of the "
+         "the same assembled statement with `ignore` (side condition: the kept statements form a consistent system) and for "
+         "sessions that already hold objects (session described by a statement list, compatibility = the computation session_from: "
+         "never refused, every declared name maps to the HELD object, a re-declared live complex carries the newly declared "
+         "concentration, nothing else is touched; two reads in sequence as a corollary). Partial (reader_builds_session_partial): "
+         "re-declarations that change a sequence or a rate constant, a strand-notation complex re-declared with a concentration, "
+         "held objects that no statement describes; the sorted view of the "
          "dictionary is compared with the generator's expected system through the whole-reader correspondence (text -> "
          "Gallina PEG parse -> reader model vs read_pil) on generated systems in every notation, order and layout, on all "
          "<=3-statement documents over a pool, and on the C16 fault streams.",
